@@ -701,6 +701,212 @@ Proof.
     destruct (m_derived m); [reflexivity|]. apply CM.
 Qed.
 
+(** ---- "exactly one": member names are unique in every space ---- *)
+Lemma mem_str_In n l : mem_str n l = true <-> In n l.
+Proof.
+  induction l as [|x t IH]; simpl; [easy|].
+  rewrite orb_true_iff, String.eqb_eq, IH. split; intros [H|H]; auto.
+Qed.
+
+Lemma derive_names : forall chain seen,
+  NoDup (map fst (derive seen chain)) /\
+  (forall n, In n (map fst (derive seen chain)) -> mem_str n seen = false).
+Proof.
+  induction chain as [|[k m] t IH]; intros seen; simpl.
+  - split; [constructor|intros n []].
+  - destruct (mem_str k seen) eqn:Mk.
+    + apply IH.
+    + destruct (IH (k :: seen)) as [ND F]. simpl. split.
+      * constructor; [|assumption]. intros H. apply F in H. simpl in H.
+        rewrite String.eqb_refl in H. discriminate.
+      * intros n [<-|H]; [assumption|]. apply F in H. simpl in H.
+        apply orb_false_iff in H. tauto.
+Qed.
+
+Lemma NoDup_app_disj {A} (a b : list A) :
+  NoDup a -> NoDup b -> (forall x, In x a -> ~ In x b) -> NoDup (a ++ b).
+Proof.
+  intros Na Nb D. induction Na as [|x t Hx Na IH]; simpl; [assumption|].
+  constructor.
+  - intros X. apply in_app_or in X. destruct X as [X|X]; [contradiction|].
+    apply (D x); [left; reflexivity|assumption].
+  - apply IH. intros y Hy. apply D. right; assumption.
+Qed.
+
+Lemma NoDup_names_filter (f : string * member -> bool) (ms : members) :
+  NoDup (map fst ms) -> NoDup (map fst (filter f ms)).
+Proof.
+  induction ms as [|[k m] t IH]; simpl; intros ND; [constructor|].
+  inversion ND as [|? ? Hk ND']; subst.
+  destruct (f (k, m)); simpl; [|auto].
+  constructor; [|auto].
+  intros X. apply Hk. apply in_map_iff in X. destruct X as ([k' m'] & E & Hin).
+  simpl in E; subst. apply filter_In in Hin. apply in_map_iff. exists (k, m'). tauto.
+Qed.
+
+Lemma inherit_NoDup own bases :
+  NoDup (map fst (defined_members own)) -> NoDup (map fst (inherit own bases)).
+Proof.
+  intros ND. unfold inherit. rewrite map_app.
+  destruct (derive_names (List.concat (map defined_members bases)) (map fst (defined_members own))) as [ND2 F].
+  apply NoDup_app_disj; auto.
+  intros x Hx Hy. apply F in Hy. apply mem_str_In in Hx. congruence.
+Qed.
+
+Definition names_ok (sp : spaces) : Prop :=
+  forall q k, NoDup (map fst (mem_of k (get sp q))).
+
+Lemma rederive_space_names g sp p k :
+  names_ok sp -> NoDup (map fst (mem_of k (rederive_space g sp p))).
+Proof.
+  intros N. rewrite mem_of_rederive. apply inherit_NoDup.
+  apply NoDup_names_filter. apply N.
+Qed.
+
+Lemma names_ok_set sp p s :
+  names_ok sp -> (forall k, NoDup (map fst (mem_of k s))) -> names_ok (set sp p s).
+Proof.
+  intros N Hs q k. rewrite get_set.
+  destruct (path_eqb q p && has_space sp p); auto.
+Qed.
+
+Lemma names_ok_update_subs g : forall V sp, names_ok sp -> names_ok (update_subs g sp V).
+Proof.
+  induction V as [|v V IH]; intros sp N; simpl; [assumption|].
+  apply IH. unfold on_inherit_at. apply names_ok_set; [assumption|].
+  intros k. apply rederive_space_names; assumption.
+Qed.
+
+Lemma names_ok_new sp s : names_ok sp -> names_ok (sp ++ [(s, empty_space)]).
+Proof.
+  intros N q k. rewrite get_app. destruct (has_space sp q); [apply N|].
+  simpl. destruct (path_eqb s q); destruct k; simpl; constructor.
+Qed.
+
+Lemma names_ok_del sp s : names_ok sp -> names_ok (del_space_entry sp s).
+Proof.
+  intros N q k. destruct (path_eqb_spec q s) as [->|Nq].
+  - rewrite get_not_in.
+    + destruct k; simpl; constructor.
+    + rewrite keys_del. intros X. apply remove_path_In in X. tauto.
+  - rewrite get_del by assumption. apply N.
+Qed.
+
+Lemma has_false_notin n (ms : members) : has n ms = false -> ~ In n (map fst ms).
+Proof.
+  rewrite <- mem_str_names. intros H X. apply mem_str_In in X. congruence.
+Qed.
+
+Lemma names_set_member n m (ms : members) : map fst (set_member n m ms) = map fst ms.
+Proof.
+  unfold set_member. rewrite map_map. apply map_ext. intros [k x]; simpl.
+  destruct (String.eqb k n); reflexivity.
+Qed.
+
+Lemma names_ok_commit_graph st g1 sp1 V :
+  names_ok (st_spaces st) -> names_ok sp1 ->
+  names_ok (st_spaces (fst (commit_graph st g1 sp1 V))).
+Proof.
+  intros N N1. unfold commit_graph, reject.
+  destruct (negb (all_mro_ok g1)); [exact N|].
+  destruct (negb (all_no_clash (update_subs g1 sp1 V))); [exact N|].
+  cbn [fst st_spaces]. apply names_ok_update_subs; assumption.
+Qed.
+
+Lemma names_ok_commit_members st s k ms :
+  names_ok (st_spaces st) -> NoDup (map fst ms) ->
+  names_ok (st_spaces (fst (commit_members st s k ms))).
+Proof.
+  intros N Hms. unfold commit_members. cbn [fst st_spaces].
+  apply names_ok_update_subs. apply names_ok_set; [assumption|].
+  intros k'. destruct k, k'; simpl; auto.
+  - apply (N s KRefs).
+  - apply (N s KCells).
+Qed.
+
+Theorem names_ok_step st o : names_ok (st_spaces st) -> names_ok (st_spaces (fst (step st o))).
+Proof.
+  intros N. destruct st as [sp g]. cbn [st_spaces] in N.
+  assert (NEW : forall k s n p,
+            names_ok (st_spaces (fst (step_new (mkState sp g) k s n p)))).
+  { intros k s n p. unfold step_new, reject; cbn [st_spaces st_graph].
+    destruct (negb (has_space sp s)); [exact N|].
+    destruct (has n (sp_cells (get sp s)) || has n (sp_refs (get sp s))) eqn:H; [exact N|].
+    destruct (existsb _ (subs_of g s)); [exact N|].
+    apply names_ok_commit_members; [exact N|].
+    rewrite map_app. simpl. apply NoDup_app_single; [|apply N].
+    apply has_false_notin. apply orb_false_iff in H. destruct k; simpl; tauto. }
+  assert (SET : forall k s n p,
+            names_ok (st_spaces (fst (step_set (mkState sp g) k s n p)))).
+  { intros k s n p. unfold step_set, reject; cbn [st_spaces st_graph].
+    destruct (negb (has_space sp s)); [exact N|].
+    destruct (negb (has n (mem_of k (get sp s)))); [exact N|].
+    apply names_ok_commit_members; [exact N|].
+    rewrite names_set_member. apply N. }
+  assert (DEL : forall k s n,
+            names_ok (st_spaces (fst (step_del (mkState sp g) k s n)))).
+  { intros k s n. unfold step_del, reject; cbn [st_spaces st_graph].
+    destruct (negb (has_space sp s)); [exact N|].
+    destruct (lookup n (mem_of k (get sp s))) as [m|]; [|exact N].
+    destruct (m_derived m); [exact N|].
+    apply names_ok_commit_members; [exact N|].
+    unfold remove_name. apply NoDup_names_filter. apply N. }
+  destruct o; unfold step; auto.
+  - unfold step_new_space, reject; cbn [st_spaces st_graph].
+    destruct (has_space sp s); [exact N|].
+    destruct (negb (forallb (has_space sp) bases)); [exact N|].
+    apply names_ok_commit_graph; [exact N|]. apply names_ok_new; assumption.
+  - unfold step_add_bases, reject; cbn [st_spaces st_graph].
+    destruct (negb (has_space sp s)); [exact N|].
+    destruct (negb (forallb (has_space sp) bases)); [exact N|].
+    destruct (existsb _ bases); [exact N|].
+    apply names_ok_commit_graph; assumption.
+  - unfold step_remove_bases, reject; cbn [st_spaces st_graph].
+    destruct (negb (has_space sp s)); [exact N|].
+    destruct (negb (forallb (has_space sp) bases)); [exact N|].
+    destruct (remove_bases_seq (bases_of g s) bases); [|exact N].
+    apply names_ok_commit_graph; assumption.
+  - unfold step_del_space, reject; cbn [st_spaces st_graph].
+    destruct (negb (has_space sp s)); [exact N|].
+    apply names_ok_commit_graph; [exact N|]. apply names_ok_del; assumption.
+Qed.
+
+(** in every reachable state a space holds at most one cells and at most one
+    reference of each name (so the derived copy of [run_member_spec] is the
+    only member of that name) *)
+Theorem names_unique_run h p k : NoDup (map fst (mem_of k (get (st_spaces (run h)) p))).
+Proof.
+  assert (X : forall h st, names_ok (st_spaces st) -> names_ok (st_spaces (run_from st h))).
+  { clear. induction h as [|o h IH]; intros st N; simpl; [assumption|].
+    apply IH. apply names_ok_step; assumption. }
+  apply (X h init). intros q k'. destruct k'; simpl; constructor.
+Qed.
+
+(** the order (topological, DFS, BFS ...) and multiplicity in which the sub
+    spaces are visited is irrelevant for the ideal [on_inherit] *)
+Theorem update_subs_order_irrelevant g sp V V' :
+  (forall q, In q V <-> In q V') ->
+  forall q, get (update_subs g sp V) q = get (update_subs g sp V') q.
+Proof.
+  intros E q.
+  destruct (update_subs_spec g V sp) as (_ & _ & R & U).
+  destruct (update_subs_spec g V' sp) as (_ & _ & R' & U').
+  destruct (memb q V) eqn:M.
+  - apply memb_In in M. destruct (has_space sp q) eqn:H.
+    + rewrite R, R'; auto. apply E; assumption.
+    + assert (X : forall W, get (update_subs g sp W) q = get sp q).
+      { clear -H. induction W as [|w W IH] using rev_ind; [reflexivity|].
+        unfold update_subs in *. rewrite fold_left_app. simpl.
+        unfold on_inherit_at at 1. rewrite get_set.
+        destruct (path_eqb_spec q w) as [->|N]; simpl; [|exact IH].
+        destruct (has_space (fold_left (on_inherit_at g) W sp) w) eqn:H2; [|exact IH].
+        exfalso. apply has_space_In in H2.
+        destruct (update_subs_spec g W sp) as (K & _). unfold update_subs in K. rewrite K in H2.
+        apply has_space_In in H2. congruence. }
+      rewrite !X. reflexivity.
+  - apply memb_nIn in M. rewrite U, U'; auto. intros X. apply M, E; assumption.
+Qed.
+
 (** ---- examples: the statements are not vacuous ---- *)
 Local Open Scope string_scope.
 Local Open Scope Z_scope.
